@@ -917,6 +917,11 @@ impl<'input> Stream<'input> {
         Ok(())
     }
 
+    /// Checks that the rest of the stream consists of XML characters only.
+    pub fn skip_xml_chars(&mut self) -> Result<()> {
+        self.skip_chars(|_, _| true)
+    }
+
     #[inline]
     fn advance_until2(&mut self, needle1: u8, needle2: u8) -> Result<()> {
         match memchr2(needle1, needle2, self.as_bytes()) {
